@@ -411,6 +411,57 @@ def claims_ok(trk, log, minpos):
     return d
 
 
+import re as _re
+
+
+def parse_report(text):
+    """the rendered error (pest's Display of a CustomError built by Tracker::collect): header line:col and the claims"""
+    m = _re.search(r"--> (\d+):(\d+)", text)
+    lc = (int(m.group(1)), int(m.group(2))) if m else None
+    exp, unexp = [], []
+    for line in text.splitlines():
+        for mm in _re.finditer(r"[Ee]xpected \[(.*?)\]", line):
+            pre = line[: mm.start()]
+            names = [x.strip() for x in mm.group(1).split(",") if x.strip()]
+            if line[mm.start():].startswith("Unexpected") or pre.rstrip().endswith("Un"):
+                unexp += names
+            elif line[max(0, mm.start() - 2): mm.start()] == "Un":
+                unexp += names
+            else:
+                exp += names
+    return lc, exp, unexp
+
+
+def line_col_of(text, off):
+    b = text.encode()[:off].decode()
+    line = b.count("\n") + 1
+    col = len(b) - (b.rfind("\n") + 1) + 1
+    return (line, col)
+
+
+def report_claims_ok(disp, trk, full_text, lo, log, what):
+    """what the user reads must say what the tracker holds, at the line:col of the location, and be truthful"""
+    d = []
+    if not isinstance(disp, str) or disp == "PANIC" or len(disp) == 16 and " " not in disp:
+        return d
+    lc, exp, unexp = parse_report(disp)
+    want_lc = line_col_of(full_text, lo + trk["pos"])
+    if lc != want_lc:
+        d.append((what + ": rendered line:col", list(want_lc), list(lc) if lc else None))
+    tp = sorted({r for e in trk["att"] for r in e["p"]})
+    tn = sorted({r for e in trk["att"] for r in e["n"]})
+    if sorted(set(exp)) != tp or sorted(set(unexp)) != tn:
+        d.append((what + ": rendered claims vs tracker", {"expected": tp, "unexpected": tn}, {"expected": sorted(set(exp)), "unexpected": sorted(set(unexp))}))
+    L = trk["pos"]
+    for r in set(exp):
+        if not any(x[0] == r and x[1] == L and not x[2] for x in log):
+            d.append((what + ": rendered 'expected %s' is not true at %d" % (r, L), "a failed invocation", disp[-200:]))
+    for r in set(unexp):
+        if not any(x[0] == r and x[1] == L and x[2] for x in log):
+            d.append((what + ": rendered 'unexpected %s' is not true at %d" % (r, L), "a successful invocation", disp[-200:]))
+    return d
+
+
 def cmp_c10(rec, job, obs, gram):
     d = []
     for form in forms_of(obs):
@@ -431,11 +482,14 @@ def cmp_c10(rec, job, obs, gram):
                     d.append((form + ".two runs gave different reports", "same", "different"))
                 if e.get("bad") or e.get("loc") != ppt["trk"]["pos"]:
                     d.append((form + ".Error.location", ppt["trk"]["pos"], e))
+                d += report_claims_ok(e.get("disp"), ppt["trk"], uncps(job["pre"] + job["inp"] + job["post"]), len(uncps(job["pre"]).encode()), rec["plog"], form + ".partial")
         if not pft["ok"] and not rec["full"]["ok"]:
             for x in claims_ok(pft["trk"], rec["log"], rec["end"] if rec["ok"] else 0):
                 d.append((form + ".full: " + x[0], x[1], x[2]))
             if pf.get("err") and pf["err"].get("disp") == "PANIC":
                 d.append((form + ".rendering the error panicked", "a string", "PANIC"))
+            elif pf.get("err"):
+                d += report_claims_ok(pf["err"].get("disp"), pft["trk"], uncps(job["pre"] + job["inp"] + job["post"]), len(uncps(job["pre"]).encode()), rec["log"], form + ".full")
     return d
 
 
@@ -698,7 +752,7 @@ def check_C10(tier, seed):
     ctx = Ctx("C10", tier, seed)
     grams = grams_for("C10", tier, seed)
     ctx.notes["grammars"] = len(grams)
-    rows = run_generic(ctx, "c10", grams, "spn", cmp_c10, emit="all", with_pest=False)
+    rows = run_generic(ctx, "c10", grams, "spnD", cmp_c10, emit="all", with_pest=False)
     eq = [report_equal(rec, obs) for rec, job, obs, gram in rows]
     ctx.notes["reports_equal_to_model_tracker"] = sum(1 for x in eq if x)
     ctx.notes["reports_differing_from_model_tracker_(drift,not_decisive)"] = sum(1 for x in eq if x is False)
@@ -708,7 +762,7 @@ def check_C10(tier, seed):
 FAMNAME = {"C02": "c01"}
 COMPARE = {"C01": (cmp_c01, "sP", True, "core"), "C02": (cmp_c02, "sP", True, "core"), "C03": (cmp_c03, "spn", False, "core"),
            "C04": (cmp_c04, "spn", False, "core"), "C08": (cmp_c08, "spn", False, "core"), "C09": (cmp_c09, "spn", False, "core"),
-           "C10": (cmp_c10, "spn", False, "all")}
+           "C10": (cmp_c10, "spnD", False, "all")}
 
 
 def setup():
